@@ -265,8 +265,8 @@ pub fn run(ctx: &Ctx) -> Outcome {
         let par = par_of(cfg);
         let key = keys(seed, cfg.key_len)[1].clone();
         let lmax = if cfg.sets.contains('s') { 2 * bs + 1 } else { tier.pick((par + 2) * bs + 1, (2 * par + 2) * bs + 1).max(3 * bs + 2) };
-        let data = pattern(seed, 0xC13F, lmax + bs);
-        let pre = dirty(lmax + bs);
+        let data = pattern(seed, 0xC13F, lmax.max((2 * par + 1) * bs) + 2 * bs);
+        let pre = dirty(lmax.max((2 * par + 1) * bs) + 2 * bs);
         let lens: Vec<usize> = if bs <= 32 { (0..=lmax).collect() } else { byte_lengths(bs, lmax) };
         let fams = ["cbc", "pcbc", "ige", "cfb", "cfb8", "ofb", "ctr32be", "ctr32le", "ctr64be", "ctr64le", "ctr128be", "ctr128le", "belt"];
         for fam in fams {
@@ -351,6 +351,24 @@ pub fn run(ctx: &Ctx) -> Outcome {
                         let _ = c.partial(Kind::InPlace, &[], &mut buf);
                         Ok(())
                     });
+                }
+            }
+            // IVs whose counter field sits on every carry boundary: a batch that contains the wrap must not panic
+            if d.mode.starts_with("ctr") {
+                for (_n, civ) in crate::c04::ivs(seed, bs, d.w, d.be) {
+                    for start in [0u128, 1, par as u128] {
+                        rep.case(|| {
+                            let mut c = rec::core(cfg, d, &key, &civ);
+                            let _ = c.set_block_pos(start);
+                            let mut buf = data[..(2 * par + 1) * bs].to_vec();
+                            let _ = c.apply_blocks(Kind::InPlace, &[], &mut buf);
+                            let mut s = rec::stream(cfg, d, &key, &civ);
+                            let mut one = data[..1].to_vec();
+                            let _ = s.apply(Kind::InPlace, &[], &mut one);
+                            let _ = s.apply(Kind::InPlace, &[], &mut buf);
+                            Ok(())
+                        });
+                    }
                 }
             }
             // the unchecked block-level API at and across the last counter value: by design it wraps, it must not panic
